@@ -291,10 +291,13 @@ class EncodeState:
         if used_mask_raw is None:
             used_mask_raw = ((1 << bit_length) - 1).to_bytes((bit_length + 7) // 8, "big")
 
-        if self.cursor_bit_position != 0:
-            tmp = int.from_bytes(used_mask_raw, "big")
-            tmp <<= self.cursor_bit_position
-            used_mask_raw = tmp.to_bytes((self.cursor_bit_position + bit_length + 7) // 8, "big")
+        # shift the mask to the bit position of the object and make
+        # sure that it exhibits the same number of bytes as the coded
+        # object. (a shorter mask can e.g. be specified for condensed
+        # bit masks.)
+        tmp = int.from_bytes(used_mask_raw, "big")
+        tmp <<= self.cursor_bit_position
+        used_mask_raw = tmp.to_bytes((self.cursor_bit_position + bit_length + 7) // 8, "big")
 
         # apply byte order to numeric objects
         if not is_highlow_byte_order and base_data_type in [
